@@ -204,21 +204,24 @@ theorem C18_resubscribed_once : C18_resubscribed_statement Variant.fixed := by
     fun c2 hl hp hs => ⟨healthy_of_live hl, hl.alive, hl.perm.trans hp, hl.succ, hp, hs⟩
   rcases hop with rfl | rfl
   · -- transport error while idle: reader → switch (not diverted) → main handler → HandleServerShutdown(err)
-    obtain ⟨f1, f2, _, _, f5, f6, _⟩ := setCur_fields (c.script k beh) (fun s => { s with alive := false })
+    obtain ⟨f1, f2, _, _, f5, f6, _, _, _, f10⟩ :=
+      setCur_fields (c.script k beh) (fun s => { s with alive := false })
     let c1 : Client := { (c.script k beh).failStream with
       mainErrs := (c.script k beh).failStream.mainErrs ++ [ErrClass.serverErrored] }
     obtain ⟨c2, h, hl, hp, _, _, hs⟩ := hss_of_P pick hpick beh.length hP c1
       (by show (c.script k beh).failStream.accts.Nodup; rw [Client.failStream, f1]; exact hnd)
       (by show (c.script k beh).failStream.chaos = false; rw [Client.failStream, f5]; exact hch)
+      (by show (c.script k beh).failStream.failOpen = 0; rw [Client.failStream, f10]; rfl)
       (by show TransportOnly (c.script k beh).failStream.beh; rw [Client.failStream, f2]; exact ht)
       (by show (c.script k beh).failStream.beh.length ≤ _; rw [Client.failStream, f2]; exact le_refl _)
     have e : c' = { c2 with handlerRes := c2.handlerRes ++ [ErrClass.none_] } := by
-      have hb : (c.script k beh).beh.length = beh.length := rfl
-      simp only [c', Client.step, hopen', halive', Bool.and_self, if_true, Client.mainHandler, hb]
+      have hbl : (c.script k beh).beh = beh := rfl
+      have hfo : (c.script k beh).failOpen = 0 := rfl
+      simp only [c', Client.step, hopen', halive', Bool.and_self, if_true, Client.mainHandler, hbl, hfo, Nat.add_zero]
       simp only [hsF] at h
       exact handlerLoop_ok _ _ _ c1 c2 h
     have hl' : Live { c2 with handlerRes := c2.handlerRes ++ [ErrClass.none_] } :=
-      ⟨hl.isOpen, hl.alive, hl.perm, hl.succ, hl.nodup, hl.chaos⟩
+      ⟨hl.isOpen, hl.alive, hl.perm, hl.succ, hl.nodup, hl.chaos, hl.fo⟩
     rw [e]
     have hp1 : List.Perm c2.accts c.accts := by
       refine hp.trans ?_
@@ -231,10 +234,11 @@ theorem C18_resubscribed_once : C18_resubscribed_statement Variant.fixed := by
       omega
     exact fin _ hl' hp1 hs1
   · -- shutdown notice while idle: the reader goroutine runs HandleServerShutdown(nil) itself
-    obtain ⟨c2, h, hl, hp, _, _, hs⟩ := hss_of_P pick hpick beh.length hP (c.script k beh) hnd hch ht (le_refl _)
+    obtain ⟨c2, h, hl, hp, _, _, hs⟩ := hss_of_P pick hpick beh.length hP (c.script k beh) hnd hch rfl ht (le_refl _)
     have e : c' = c2 := by
-      have hb : (c.script k beh).beh.length = beh.length := rfl
-      simp only [c', Client.step, hopen', halive', Bool.and_self, if_true, Client.readerShutdown, hb]
+      have hbl : (c.script k beh).beh = beh := rfl
+      have hfo : (c.script k beh).failOpen = 0 := rfl
+      simp only [c', Client.step, hopen', halive', Bool.and_self, if_true, Client.readerShutdown, hbl, hfo, Nat.add_zero]
       simp only [hsF] at h
       rw [h]
     rw [e]
@@ -265,11 +269,12 @@ theorem C18_subscribe_resilient (pick : List Nat → List Nat) (hpick : ∀ l, L
   obtain ⟨hnd, hch, hst⟩ := hH
   intro r
   have hP := PHs_all pick hpick beh.length
-  have hb : (c.script k beh).beh.length = beh.length := rfl
+  have hbl : (c.script k beh).beh = beh := rfl
+  have hfo : (c.script k beh).failOpen = 0 := rfl
   by_cases ha : a ∈ c.accts
   · have : r = (c.script k beh, .ok) := by
       have ha' : a ∈ (c.script k beh).accts := ha
-      simp only [r, Client.step, hb]
+      simp only [r, Client.step, hbl, hfo, Nat.add_zero]
       cases hbl : beh.length <;> simp [hsLevel, Client.connectAndAuth, ha']
     rw [this]
     exact ⟨rfl, ⟨hnd, hch, hst⟩, by simp [Client.script, addAcct, ha]⟩
@@ -280,7 +285,7 @@ theorem C18_subscribe_resilient (pick : List Nat → List Nat) (hpick : ∀ l, L
       intro c0 hl h1 h2 heq
       obtain ⟨c', h, p⟩ := hP c0 a hl (by rw [h1]; exact ha) (by rw [h2]; exact ht) (by rw [h2])
       have : r = (c', .ok) := by
-        simp only [r, Client.step, hb, heq]
+        simp only [r, Client.step, hbl, hfo, Nat.add_zero, heq]
         simp only [hsF] at h
         rw [h]
       rw [this]
@@ -292,12 +297,12 @@ theorem C18_subscribe_resilient (pick : List Nat → List Nat) (hpick : ∀ l, L
     · have hcl' : (c.script k beh).isOpen = false := hcl
       have ha' : a ∉ (c.script k beh).accts := ha
       refine key (c.script k beh).connectStream ?_ rfl rfl ?_
-      · refine ⟨rfl, rfl, ?_, rfl, ?_, hch⟩
+      · refine ⟨rfl, rfl, ?_, rfl, ?_, hch, rfl⟩
         · show List.Perm [] c.accts; rw [hemp]
         · show c.accts.Nodup; exact hnd
       · cases beh.length <;>
-          simp [hsLevel, Client.connectAndAuth, ha', hcl', Client.connectStream]
-    · exact key (c.script k beh) ⟨hop, halive, hperm, hsucc, hnd, hch⟩ rfl rfl rfl
+          simp [hsLevel, Client.connectAndAuth, ha', hcl', Client.connectStream, hfo]
+    · exact key (c.script k beh) ⟨hop, halive, hperm, hsucc, hnd, hch, rfl⟩ rfl rfl rfl
 
 /-- **The clause is false for the code before the repairs** (finding `resubscribe-abort-drops-accounts`, now fixed):
 three accounts, shutdown notice, the second re-subscription is hit by a transport error before the challenge – the
